@@ -1,5 +1,6 @@
 import Tahoe.Base.DrvUtil
 import Tahoe.Storage.Immutable
+import Tahoe.Storage.ImmDirs
 /-!
 Line handler shared by the drivers of C22 and C28 (`lean/Drv/C22.lean`, `lean/Drv/C28.lean`).
 
@@ -93,7 +94,66 @@ def runOps (s : Server) (acc : List String) : List String → Option (List Strin
     | some (s', out) => runOps s' (out :: acc) rest
     | none => none
 
+/-! ### `immd`: the same histories on the server with its directory tree (ImmDirs) -/
+
+def parseFOp (op : String) : Option (Option FOp) :=
+  match op.splitOn ":" with
+  | ["A", si, shs, size, rec, free, order] => do
+    pure (some (.direct (.alloc (← si.toNat?) (← parseNatList shs) (← size.toNat?) (← bytesOfHex rec)
+      (← free.toNat?) (← parseNatList order))))
+  | ["A", si, shs, size, rec, free, order, conn] => do
+    pure (some (.allocConn (← conn.toNat?) (← si.toNat?) (← parseNatList shs) (← size.toNat?) (← bytesOfHex rec)
+      (← free.toNat?) (← parseNatList order)))
+  | ["K", conn] => do pure (some (.disconnect (← conn.toNat?)))
+  | ["W", wid, off, d] => do pure (some (.direct (.write (← wid.toNat?) (← off.toNat?) (← bytesOfHex d))))
+  | ["C", wid] => do pure (some (.direct (.close (← wid.toNat?))))
+  | ["X", wid] => do pure (some (.direct (.abort (← wid.toNat?))))
+  | ["T", dt] => do pure (some (.direct (.advance (← dt.toNat?))))
+  | ["R", _, _, _, _] => some none
+  | ["L", _] => some none
+  | ["S"] => some none
+  | ["D"] => some none
+  | _ => none
+
+def showDir : Dir → String
+  | .incPrefix p => s!"IP.{p}" | .incDir si => s!"ID.{si}" | .finPrefix p => s!"FP.{p}" | .finDir si => s!"FD.{si}"
+
+def dirRank : Dir → Nat × Nat
+  | .finDir si => (0, si) | .finPrefix p => (1, p) | .incDir si => (2, si) | .incPrefix p => (3, p)
+
+def showDirs (dirs : List Dir) : String :=
+  showList ((sortBy (fun a b => keyLt (dirRank a) (dirRank b)) dirs).map showDir)
+
+def parsePre (t : String) : Option (Nat → Nat) := do
+  let pairs ← (t.splitOn ",").mapM (fun p => match p.splitOn "=" with
+    | [a, b] => do pure ((← a.toNat?), (← b.toNat?))
+    | _ => none)
+  pure (fun si => ((pairs.find? (fun p => p.1 == si)).map (·.2)).getD 0)
+
+/-- every op prints `<result of the op as in imm>#<directories after it>`; a `!` marks a state
+    whose incoming/final keys differ between `dfstep` and the plain server step (never expected) -/
+def runDOps (pre : Nat → Nat) (d : DServer) (acc : List String) : List String → Option (List String)
+  | [] => some acc.reverse
+  | op :: rest =>
+    match stepOp d.srv op, parseFOp op with
+    | some (s', out), some fop =>
+      let d' := match fop with
+        | some f => dfstep pre d f
+        | none => d
+      let same := (sortBy keyLt (d'.srv.incoming.map (·.1)) == sortBy keyLt (s'.incoming.map (·.1))) &&
+                  (sortBy keyLt (d'.srv.final.map (·.1)) == sortBy keyLt (s'.final.map (·.1))) &&
+                  allocatedSize d'.srv == allocatedSize s'
+      runDOps pre d' (s!"{out}#{showDirs d'.dirs}{if same then "" else "!"}" :: acc) rest
+    | _, _ => none
+
 def handle : List String → String
+  | "immd" :: ro :: reserved :: pre :: ops =>
+    match (if ro == "0" then some false else if ro == "1" then some true else none), reserved.toNat?, parsePre pre with
+    | some ro, some rs, some pre =>
+      match runDOps pre (DServer.empty ro rs) [] ops with
+      | some outs => if outs.isEmpty then "-" else " ".intercalate outs
+      | none => "bad-op"
+    | _, _, _ => "bad-op"
   | "imm" :: ro :: reserved :: ops =>
     match (if ro == "0" then some false else if ro == "1" then some true else none), reserved.toNat? with
     | some ro, some rs =>
